@@ -304,13 +304,33 @@ func SelfTestS2K() error {
 	if got := S2K(sha256.New, 3, salt, pass, 5, 32); !bytes.Equal(got, i[:]) {
 		return fmt.Errorf("iterated S2K short-count mismatch")
 	}
+	// messages produced by GnuPG 2.2.40 (gpg --symmetric --s2k-mode 3/1/0): the reference key must decrypt them
+	fixtures := []struct{ pass, msg string }{
+		{"pass phrase", "8c0d04090308eff368c545b81aa762d23d019bb6a3ce7d2482940dc7f9a79fddc84ded8264e36626d943d26070c28bd0240a6393adeb58e532e966815d0bf717656ec4b24026a215b00c01d4ecb8"},
+		{"pw", "8c0c04070103887dc67616e962fbd23d0195197ef9b44b08a6f24e93e5ec664f52c42afc376fc794f6882fb4ec93bf41e65e14f58cde979bfe3ddae2fca44a9ac446930c0cdf2d075e06571be3"},
+		{"pw", "8c0404070003d23d011d188902a9e04a7571715c39f515de381b0c00653169eea4bdb3f4cabe2c62f8bfe0fe0a589fefbc21a75136c84d84bfb83456489220ee2e5d08b688"},
+	}
+	for i, fx := range fixtures {
+		m, err := ParseSymMessage(unhex(fx.msg))
+		if err != nil {
+			return fmt.Errorf("gpg fixture %d: %v", i, err)
+		}
+		key, err := S2KFromSpec(m.S2KSpec, []byte(fx.pass), m.KeySize())
+		if err != nil {
+			return fmt.Errorf("gpg fixture %d: %v", i, err)
+		}
+		inner, err := m.Decrypt(key)
+		if err != nil || !bytes.Contains(inner, []byte("hello s2k")) {
+			return fmt.Errorf("gpg fixture %d: reference S2K key does not decrypt the message: %v", i, err)
+		}
+	}
 	return nil
 }
 
 // SelfTestAll runs every self-test (the scrypt one in its small form).
 func SelfTestAll() error {
 	for _, f := range []func() error{SelfTestBlowfish, SelfTestTEA, SelfTestXTEA, SelfTestRC2, SelfTestTwofish,
-		func() error { return SelfTestScrypt(false) }, SelfTestBcrypt, SelfTestBcryptPBKDF, SelfTestS2K, SelfTestPKCS12} {
+		func() error { return SelfTestScrypt(false) }, SelfTestBcrypt, SelfTestBcryptPBKDF, SelfTestRIPEMD160, SelfTestS2K, SelfTestPKCS12} {
 		if err := f(); err != nil {
 			return err
 		}
